@@ -55,22 +55,24 @@ Record mstate := mkM {
   m_gh : Z; m_gt : Z;                (* GHOST absolute head / tail *)
   m_gval : Z -> Z;                   (* GHOST value of element i    *)
   m_gwho : Z -> nat;                 (* GHOST producer of element i *)
+  m_gpop : Z -> nat;                 (* GHOST consumer that claimed element i *)
   m_thr : nat -> thr mpc }.
 
 Definition m_set_thr (st : mstate) (p : nat) (th : thr mpc) : mstate :=
-  mkM (m_head st) (m_tail st) (m_mark st) (m_slot st) (m_gh st) (m_gt st) (m_gval st) (m_gwho st) (upd (m_thr st) p th).
+  mkM (m_head st) (m_tail st) (m_mark st) (m_slot st) (m_gh st) (m_gt st) (m_gval st) (m_gwho st) (m_gpop st) (upd (m_thr st) p th).
 Definition m_goto (st : mstate) (p : nat) (pc : mpc) : mstate := m_set_thr st p (thr_goto (m_thr st p) pc).
 Definition m_finish (st : mstate) (p : nat) (r : res) : mstate := m_set_thr st p (thr_finish mpmc_entry (m_thr st p) r).
 Definition m_set_mark (st : mstate) (j v : Z) : mstate :=
-  mkM (m_head st) (m_tail st) (updZ (m_mark st) j v) (m_slot st) (m_gh st) (m_gt st) (m_gval st) (m_gwho st) (m_thr st).
+  mkM (m_head st) (m_tail st) (updZ (m_mark st) j v) (m_slot st) (m_gh st) (m_gt st) (m_gval st) (m_gwho st) (m_gpop st) (m_thr st).
 Definition m_set_slot (st : mstate) (j v : Z) : mstate :=
-  mkM (m_head st) (m_tail st) (m_mark st) (updZ (m_slot st) j v) (m_gh st) (m_gt st) (m_gval st) (m_gwho st) (m_thr st).
+  mkM (m_head st) (m_tail st) (m_mark st) (updZ (m_slot st) j v) (m_gh st) (m_gt st) (m_gval st) (m_gwho st) (m_gpop st) (m_thr st).
 (* a producer claims the next tail index: tail := wrap(t+1); ghost: element m_gt gets (v, p) *)
 Definition m_claim_tail (st : mstate) (p : nat) (t' v : Z) : mstate :=
   mkM (m_head st) t' (m_mark st) (m_slot st) (m_gh st) (m_gt st + 1)
-      (updZ (m_gval st) (m_gt st) v) (updZ (m_gwho st) (m_gt st) p) (m_thr st).
-Definition m_claim_head (st : mstate) (h' : Z) : mstate :=
-  mkM h' (m_tail st) (m_mark st) (m_slot st) (m_gh st + 1) (m_gt st) (m_gval st) (m_gwho st) (m_thr st).
+      (updZ (m_gval st) (m_gt st) v) (updZ (m_gwho st) (m_gt st) p) (m_gpop st) (m_thr st).
+Definition m_claim_head (st : mstate) (p : nat) (h' : Z) : mstate :=
+  mkM h' (m_tail st) (m_mark st) (m_slot st) (m_gh st + 1) (m_gt st) (m_gval st) (m_gwho st)
+      (updZ (m_gpop st) (m_gh st) p) (m_thr st).
 
 Definition mpmc_step (c : cfg) (st : mstate) (p : nat) : mstate * obs :=
   match t_pc (m_thr st p) with
@@ -104,7 +106,7 @@ Definition mpmc_step (c : cfg) (st : mstate) (p : nat) : mstate * obs :=
         let cur := m_head st in
         let h' := wrap (h + 1) in
         if cur =? h
-        then (m_goto (m_claim_head st h') p (MPopRd false h (m_gh st)), ob_cas A_HEAD (-1) h h' cur true)
+        then (m_goto (m_claim_head st p h') p (MPopRd false h (m_gh st)), ob_cas A_HEAD (-1) h h' cur true)
         else (m_goto st p (MPopLdM cur), ob_cas A_HEAD (-1) h h' cur false)
     | MPopLdT h => (m_goto st p (MPopLdH2 h (m_tail st)), ob_ld A_TAIL (-1) (m_tail st))
     | MPopLdH2 prev t =>
@@ -124,7 +126,7 @@ Definition mpmc_step (c : cfg) (st : mstate) (p : nat) : mstate * obs :=
     | MSendSp v t i => (m_goto st p (MSendLdM v t i), ob_sp)
     | MRecvFa =>
         let h := m_head st in
-        (m_goto (m_claim_head st (wrap (h + 1))) p (MRecvLdM h (m_gh st)), ob_fa A_HEAD (-1) 1 h)
+        (m_goto (m_claim_head st p (wrap (h + 1))) p (MRecvLdM h (m_gh st)), ob_fa A_HEAD (-1) 1 h)
     | MRecvLdM h i =>
         let m := m_mark st (idx c h) in
         (m_goto st p (if m =? this_turn_write c h then MPopRd true h i else MRecvSp h i), ob_ld A_MARK (idx c h) m)
@@ -153,7 +155,7 @@ Definition init_mark (c : cfg) (start : Z) (j : Z) : Z :=
   last_turn_read c nxt.
 
 Definition mpmc_init (c : cfg) (start : Z) (scripts : list (list op)) : mstate :=
-  mkM (wrap start) (wrap start) (init_mark c start) (fun _ => 0) start start (fun _ => 0) (fun _ => O)
+  mkM (wrap start) (wrap start) (init_mark c start) (fun _ => 0) start start (fun _ => 0) (fun _ => O) (fun _ => O)
       (fun p => thr_init mpmc_entry (nth p scripts [])).
 
 Definition mpmc_run (c : cfg) (bound : nat) (sched : list nat) (start : Z) (scripts : list (list op)) :=
